@@ -19,6 +19,10 @@ Proof.
   apply in_map_iff. exists (N.to_nat x). split; [lia|]. apply in_seq. lia.
 Qed.
 
+Definition belowN (n : N) (P : N -> bool) : bool := below (N.to_nat n) P.
+Lemma belowN_spec n P : belowN n P = true -> forall x, x < n -> P x = true.
+Proof. intros H x Hx. apply (below_spec _ _ H). lia. Qed.
+
 (* facts about single bytes *)
 Lemma byte_cont_facts y : y < 256 ->
   N.lor 128 y = 128 + y mod 128 /\ N.land (N.lor 128 y) 127 = y mod 128.
@@ -272,4 +276,101 @@ Proof.
       destruct (0 <? Z.rem d 7)%Z;
         repeat match goal with |- context [(?a =? 1)%Z] => destruct (Z.eqb_spec a 1) end; lia. }
     specialize (H _ u 4 Hk). lia.
+Qed.
+
+(* ------------------------------------------------------------------ *)
+(** * packfile framing *)
+
+Lemma to_nat_len' (s : bytes) : N.to_nat (len s) = length s.
+Proof. unfold len. lia. Qed.
+
+Lemma decode_obj_enc o rest : wf_obj o ->
+  exists e, encode_obj o = Some e /\ (2 <= length e)%nat /\ decode_obj (e ++ rest) = Some (o, rest).
+Proof.
+  destruct o as [ty b]. unfold wf_obj. cbn [fst snd]. intros [Hty Hlen].
+  unfold encode_obj.
+  destruct (2 ^ 63 <=? len b) eqn:E; [apply N.leb_le in E; lia|].
+  eexists. split; [reflexivity|]. split.
+  - rewrite app_length. pose proof (encode_len_length ty (len b)). lia.
+  - unfold decode_obj. rewrite <- app_assoc.
+    assert (H64 : len b < 2 ^ 64).
+    { assert (2 ^ 63 < 2 ^ 64) by (apply N.pow_lt_mono_r; lia). lia. }
+    rewrite header_roundtrip by assumption. rewrite E.
+    assert (Hfit : (len b <=? len (b ++ rest)) = true) by (apply N.leb_le; rewrite len_app; lia).
+    rewrite Hfit, to_nat_len', take_app. reflexivity.
+Qed.
+
+Lemma read_objs_step f b : b <> [] ->
+  read_objs (S f) b =
+  match decode_obj b with
+  | None => None
+  | Some (o, b') => match read_objs f b' with Some r => Some (o :: r) | None => None end
+  end.
+Proof. destruct b; [congruence|reflexivity]. Qed.
+
+Lemma read_objs_enc l : Forall wf_obj l ->
+  exists r, enc_objs l = Some r /\ forall fuel, (length r <= fuel)%nat -> read_objs fuel r = Some l.
+Proof.
+  induction 1 as [|o l Ho _ (r & Er & IH)].
+  - exists []. split; [reflexivity|]. intros fuel _. destruct fuel; reflexivity.
+  - destruct (decode_obj_enc o r Ho) as (e & Ee & Le & De).
+    exists (e ++ r). cbn [enc_objs]. rewrite Ee, Er. split; [reflexivity|].
+    intros fuel Hf. rewrite app_length in Hf. destruct fuel as [|f]; [lia|].
+    rewrite read_objs_step by (destruct e; [cbn in Le; lia|discriminate]).
+    rewrite De, IH by lia. reflexivity.
+Qed.
+
+Theorem packfile_roundtrip l : wf_packfile l ->
+  exists b, encode_packfile l = Some b /\ decode_packfile b = Some ((pack_version, l), []).
+Proof.
+  intros Hw. destruct (read_objs_enc l Hw) as (r & Er & Hr).
+  unfold encode_packfile. rewrite Er. eexists. split; [reflexivity|].
+  unfold decode_packfile. rewrite expect_app.
+  rewrite rd_be_app by (vm_compute; reflexivity).
+  rewrite Hr by lia. reflexivity.
+Qed.
+
+(* ------------------------------------------------------------------ *)
+(** * pkt-line *)
+
+Lemma hex4_roundtrip m : m < 65536 -> hex4val (hexw 4 m) = Some m /\ length (hexw 4 m) = 4%nat.
+Proof.
+  intros Hm.
+  assert (H : (match hex4val (hexw 4 m) with Some u => u =? m | None => false end) = true).
+  { revert m Hm. apply (belowN_spec 65536). vm_compute. reflexivity. }
+  split.
+  - destruct (hex4val (hexw 4 m)) as [u|]; [|discriminate]. apply N.eqb_eq in H. now subst.
+  - clear. cbn [hexw]. rewrite !app_length. reflexivity.
+Qed.
+
+Theorem pktline_roundtrip s : wf_pktline s ->
+  exists b, encode_pktline s = Some b /\ forall rest, decode_pktline (b ++ rest) = Some (s, rest).
+Proof.
+  unfold wf_pktline. intros Hs. destruct s as [|x s].
+  - exists [48; 48; 48; 48]. split; [reflexivity|]. intros rest. reflexivity.
+  - set (t := x :: s) in *.
+    assert (Hm : len t + 1 < 65536) by lia.
+    destruct (hex4_roundtrip _ Hm) as [Hh Hl].
+    unfold encode_pktline. subst t. cbv iota. set (t := x :: s) in *.
+    unfold fmt_hex4. apply N.ltb_lt in Hm. rewrite Hm.
+    rewrite <- Hl at 1. rewrite firstn_all.
+    eexists. split; [reflexivity|]. intros rest.
+    unfold decode_pktline. rewrite <- app_assoc. rewrite (take_app_n 4) by assumption.
+    rewrite Hh.
+    assert (Hnz : (len t + 1 =? 0) = false) by (apply N.eqb_neq; lia). rewrite Hnz.
+    replace (t ++ [NL] ++ rest) with ((t ++ [NL]) ++ rest) by (now rewrite <- app_assoc).
+    rewrite (take_app_n (N.to_nat (len t + 1))) by (rewrite app_length; unfold len; cbn [length]; lia).
+    replace (N.to_nat (len t + 1) - 1)%nat with (length t) by (unfold len; lia).
+    rewrite firstn_app, Nat.sub_diag, firstn_all. cbn [firstn]. now rewrite app_nil_r.
+Qed.
+
+(** WritePktLine has no length guard: 65535 bytes are written under the header "1000" and
+    read back as 4095 bytes.  (The function has no non-test caller.) *)
+Lemma pktline_overlimit_corrupts :
+  let s := repeat 112 (N.to_nat 65535) in
+  exists b, encode_pktline s = Some b /\ firstn 4 b = [49; 48; 48; 48] /\
+            exists s' rest, decode_pktline b = Some (s', rest) /\ len s' = 4095.
+Proof.
+  cbv zeta. eexists. split; [reflexivity|]. split; [vm_compute; reflexivity|].
+  eexists. eexists. split; [vm_compute; reflexivity|]. vm_compute. reflexivity.
 Qed.
